@@ -402,8 +402,8 @@ class Explorer(object):
                     raise
                 except HarnessError:
                     raise
-                except (Exception, SystemExit, KeyboardInterrupt) as e:
-                    # SystemExit / KeyboardInterrupt raised by the code under test are outcomes too
+                except BaseException as e:
+                    # SystemExit / KeyboardInterrupt / any other BaseException raised by the code under test are outcomes too
                     res = PathResult("raise", None, e, c)
             finally:
                 _CURRENT[0] = prev
